@@ -35,8 +35,8 @@ From RX.Proofs Require Import LexerProofs RejectProofs CstMain CstUMain.
 From RX.Proofs Require CstNsView CstFullMain CstFullS5 CstFullS6Main CstFullS6Embed5.
 From RX.Spec Require CstFullS4 CstFullS6.
 From RX.Proofs Require ApiViewAcc ApiView ApiViewProofs ApiViewCapstone.
-From RX.Spec Require CstFullS7 CstFullS8 CstFullS9.
-From RX.Proofs Require CstFullS7Main CstFullS8Main CstFullS9Main.
+From RX.Spec Require CstFullS7 CstFullS8 CstFullS9 CstFullS10 CstFullS11.
+From RX.Proofs Require CstFullS7Main CstFullS8Main CstFullS9Main CstFullS10Main CstFullS11Main.
 Open Scope N_scope.
 
 (* ---- Proofs/CstMain.v ---- *)
@@ -151,8 +151,84 @@ Print Assumptions C03_s6_in_s7.
 
 End G3.
 
-(* ---- Proofs/CstFullS9Main.v ---- *)
+(* ---- Proofs/CstFullS11Main.v ---- *)
 Module G4.
+Import RX.Spec.CstFull. Import RX.Spec.CstFullS6. Import RX.Spec.CstFullS10. Import RX.Spec.CstFullS11. Import RX.Proofs.CstNsView. Import RX.Proofs.ApiView. Import RX.Proofs.CstFullS11Main.
+Theorem C03_parse_render_sem_full_s11 :
+  forall (d : S11.doc) (opt : options),
+  S11.wf_doc d = true ->
+  (S11.has_dtd d = true -> allow_dtd opt = true) ->                (* a DOCTYPE needs the option *)
+  N.of_nat (length (S11.sem d)) < nodes_limit opt ->               (* room for all nodes + the Root *)
+  N.of_nat (length (S11.sem d)) < u32_max ->                        (* of the MEANING: entities add nodes *)
+  N.of_nat (S11.nattrs d) < u32_max ->                              (* the attribute rows of the meaning *)
+  S11.distinct_decls_le d (N.to_nat 65535) ->                       (* at most 65535 distinct declared bindings *)
+  1 + N.of_nat (S11.ns_cost d) <= u32_max ->                        (* the namespace table fits *)
+  exists doc, parse (S11.render d) opt = Ok doc /\ view (S11.render d) doc = Some (S11.sem d).
+Proof. exact parse_render_sem_full_s11. Qed.
+Print Assumptions C03_parse_render_sem_full_s11.
+
+Theorem C03_parse_render_sem_full_s11_api :
+  forall (d : S11.doc) (opt : options),
+  S11.wf_doc d = true ->
+  (S11.has_dtd d = true -> allow_dtd opt = true) ->
+  nodes_limit opt <= u32_max ->                                    (* a u32 *)
+  N.of_nat (length (S11.sem d)) < nodes_limit opt ->
+  N.of_nat (length (S11.sem d)) < u32_max ->
+  N.of_nat (S11.nattrs d) < u32_max ->
+  S11.distinct_decls_le d (N.to_nat 65535) ->
+  1 + N.of_nat (S11.ns_cost d) <= u32_max ->
+  exists doc, parse (S11.render d) opt = Ok doc /\ ApiView.api_view (S11.render d) doc = Some (S11.sem d).
+Proof. exact parse_render_sem_full_s11_api. Qed.
+Print Assumptions C03_parse_render_sem_full_s11_api.
+
+Theorem C03_s10_in_s11 :
+  forall d : S10.doc, S10.wf_doc d = true ->
+  S11.wf_doc d = true /\ S11.render d = S10.render d /\ S11.sem d = S10.sem d /\ S11.has_dtd d = S10.has_dtd d.
+Proof. exact s10_in_s11. Qed.
+Print Assumptions C03_s10_in_s11.
+
+End G4.
+
+(* ---- Proofs/CstFullS10Main.v ---- *)
+Module G5.
+Import RX.Spec.CstFull. Import RX.Spec.CstFullS6. Import RX.Spec.CstFullS9. Import RX.Spec.CstFullS10. Import RX.Proofs.CstNsView. Import RX.Proofs.ApiView. Import RX.Proofs.CstFullS10Main.
+Theorem C03_parse_render_sem_full_s10 :
+  forall (d : S10.doc) (opt : options),
+  S10.wf_doc d = true ->
+  (S10.has_dtd d = true -> allow_dtd opt = true) ->                (* a DOCTYPE needs the option *)
+  N.of_nat (length (S10.sem d)) < nodes_limit opt ->               (* room for all nodes + the Root *)
+  N.of_nat (length (S10.sem d)) < u32_max ->                        (* of the MEANING: entities add nodes *)
+  N.of_nat (S10.nattrs d) < u32_max ->                              (* the attribute rows of the meaning *)
+  S10.distinct_decls_le d (N.to_nat 65535) ->                       (* at most 65535 distinct declared bindings *)
+  1 + N.of_nat (S10.ns_cost d) <= u32_max ->                        (* the namespace table fits *)
+  exists doc, parse (S10.render d) opt = Ok doc /\ view (S10.render d) doc = Some (S10.sem d).
+Proof. exact parse_render_sem_full_s10. Qed.
+Print Assumptions C03_parse_render_sem_full_s10.
+
+Theorem C03_parse_render_sem_full_s10_api :
+  forall (d : S10.doc) (opt : options),
+  S10.wf_doc d = true ->
+  (S10.has_dtd d = true -> allow_dtd opt = true) ->
+  nodes_limit opt <= u32_max ->                                    (* a u32 *)
+  N.of_nat (length (S10.sem d)) < nodes_limit opt ->
+  N.of_nat (length (S10.sem d)) < u32_max ->
+  N.of_nat (S10.nattrs d) < u32_max ->
+  S10.distinct_decls_le d (N.to_nat 65535) ->
+  1 + N.of_nat (S10.ns_cost d) <= u32_max ->
+  exists doc, parse (S10.render d) opt = Ok doc /\ ApiView.api_view (S10.render d) doc = Some (S10.sem d).
+Proof. exact parse_render_sem_full_s10_api. Qed.
+Print Assumptions C03_parse_render_sem_full_s10_api.
+
+Theorem C03_s9_in_s10 :
+  forall d : CstFullS9.S9.doc, CstFullS9.S9.wf_doc d = true ->
+  S10.wf_doc d = true /\ S10.render d = CstFullS9.S9.render d /\ S10.sem d = CstFullS9.S9.sem d /\ S10.has_dtd d = CstFullS9.S9.has_dtd d.
+Proof. exact s9_in_s10. Qed.
+Print Assumptions C03_s9_in_s10.
+
+End G5.
+
+(* ---- Proofs/CstFullS9Main.v ---- *)
+Module G6.
 Import RX.Spec.CstFull. Import RX.Spec.CstFullS6. Import RX.Spec.CstFullS8. Import RX.Spec.CstFullS9. Import RX.Proofs.CstNsView. Import RX.Proofs.ApiView. Import RX.Proofs.CstFullS9Main.
 Theorem C03_parse_render_sem_full_s9 :
   forall (d : S9.doc) (opt : options),
@@ -173,10 +249,10 @@ Theorem C03_s8_in_s9 :
 Proof. exact s8_in_s9. Qed.
 Print Assumptions C03_s8_in_s9.
 
-End G4.
+End G6.
 
 (* ---- Proofs/CstFullS8Main.v ---- *)
-Module G5.
+Module G7.
 Import RX.Spec.CstFull. Import RX.Spec.CstFullS6. Import RX.Spec.CstFullS7. Import RX.Spec.CstFullS8. Import RX.Proofs.CstNsView. Import RX.Proofs.ApiView. Import RX.Proofs.CstFullS8Main.
 Theorem C03_parse_render_sem_full_s8 :
   forall (d : S8.doc) (opt : options),
@@ -197,7 +273,7 @@ Theorem C03_s7_in_s8 :
 Proof. exact s7_in_s8. Qed.
 Print Assumptions C03_s7_in_s8.
 
-End G5.
+End G7.
 
 (* ---- Proofs/CstUMain.v ---- *)
 Theorem C03_render_valid_utf8 :
@@ -229,7 +305,7 @@ Proof. exact layout_insensitive_u. Qed.
 Print Assumptions C03_layout_insensitive_u.
 
 (* ---- Proofs/CstFullS6Main.v ---- *)
-Module G7.
+Module G9.
 Import RX.Spec.CstFull. Import RX.Spec.CstFullS4. Import RX.Spec.CstFullS6. Import RX.Proofs.CstNsView. Import RX.Proofs.CstFullS6Main.
 Theorem C03_parse_render_sem_full_s6 :
   forall (d : S6.doc) (opt : options),
@@ -263,10 +339,10 @@ Theorem C03_s4_in_s6 :
 Proof. exact s4_in_s6. Qed.
 Print Assumptions C03_s4_in_s6.
 
-End G7.
+End G9.
 
 (* ---- Proofs/CstFullS6Embed5.v ---- *)
-Module G8.
+Module G10.
 Import RX.Spec.CstFull. Import RX.Spec.CstFullS5. Import RX.Spec.CstFullS6. Import RX.Proofs.CstFullS6Main. Import RX.Proofs.CstFullS6Embed5.
 Theorem C03_s5_in_s6 :
   forall d : S5.doc, S5.wf_doc d = true ->
@@ -275,10 +351,10 @@ Theorem C03_s5_in_s6 :
 Proof. exact s5_in_s6. Qed.
 Print Assumptions C03_s5_in_s6.
 
-End G8.
+End G10.
 
 (* ---- Proofs/CstFullS5.v ---- *)
-Module G9.
+Module G11.
 Import RX.Spec.CstFull. Import RX.Spec.CstFullS5. Import RX.Proofs.CstNsView. Import RX.Proofs.CstFullMain. Import RX.Proofs.CstFullS5.
 Theorem C03_parse_render_sem_full_s5 :
   forall (d : S5.doc) (opt : options),
@@ -304,10 +380,10 @@ Theorem C03_prolog_insensitive_full_s5 :
 Proof. exact prolog_insensitive_full_s5. Qed.
 Print Assumptions C03_prolog_insensitive_full_s5.
 
-End G9.
+End G11.
 
 (* ---- Proofs/LexerProofs.v ---- *)
-Module G10.
+Module G12.
 Local Notation token := Tokenizer.token.
 Theorem C03_parse_comment_post :
   forall (text : bytes), forall s acc s' acc', SInv text s ->
@@ -394,10 +470,10 @@ Theorem C03_parse_element_tokens :
 Proof. exact parse_element_tokens. Qed.
 Print Assumptions C03_parse_element_tokens.
 
-End G10.
+End G12.
 
 (* ---- Proofs/RejectProofs.v ---- *)
-Module G11.
+Module G13.
 Local Notation token := Tokenizer.token.
 Theorem C03_ok_document_shape :
   forall text dtd toks,
@@ -418,4 +494,4 @@ Theorem C03_ok_no_text_before_root :
 Proof. exact ok_no_text_before_root. Qed.
 Print Assumptions C03_ok_no_text_before_root.
 
-End G11.
+End G13.
